@@ -11,6 +11,16 @@ pub const EXIT_OK: i32 = 0;
 pub const EXIT_VIOLATION: i32 = 1;
 pub const EXIT_MACHINERY: i32 = 2;
 
+/// Wall-clock budget of an exploration: `quick_s` in the quick tier; in the thorough tier
+/// `share` of VERIF_THOROUGH_S (default 720 s).
+pub fn budget(thorough: bool, quick_s: f64, share: f64) -> f64 {
+    if !thorough {
+        return quick_s;
+    }
+    let total: f64 = std::env::var("VERIF_THOROUGH_S").ok().and_then(|v| v.parse().ok()).unwrap_or(720.0);
+    total * share
+}
+
 pub fn machinery(msg: &str) -> ! {
     eprintln!("MACHINERY: {msg}");
     println!("MACHINERY-ERROR {msg}");
